@@ -79,18 +79,29 @@ func VerifH_C19_live() {
 	cancelAt := c19Pick("cancelAt", 0, 50*time.Millisecond, 150*time.Millisecond, 260*time.Millisecond, 450*time.Millisecond, 900*time.Millisecond)
 	consumer := c19Pick("consumer", 0, 20*time.Millisecond)
 	ctx, cancel := context.WithCancel(context.Background())
+	byDeadline := cancelAt > 0 && ndBool("endsByDeadline")
+	if byDeadline {
+		// the scan context ends because its deadline expires (a caller's WithTimeout), not by cancel()
+		cancel()
+		ctx, cancel = context.WithTimeout(context.Background(), cancelAt)
+		verifCover("deadline")
+	}
 	ch, err := NewLiveRequestGenerator(d, I).GenerateRequests(ctx, &Range{})
 	verifAssert(err == nil, "live generator refused a working delegate")
 	if err != nil {
 		cancel()
 		return
 	}
-	go func() {
-		if cancelAt > 0 {
-			time.Sleep(cancelAt)
-		}
-		cancel()
-	}()
+	if !byDeadline {
+		go func() {
+			if cancelAt > 0 {
+				time.Sleep(cancelAt)
+			}
+			cancel()
+		}()
+	} else {
+		defer cancel()
+	}
 	var got []int
 	var gotAt []int64
 	for r := range ch {
